@@ -7,13 +7,14 @@ class C10(LogCheck):
     vfiles = VFILES + ["Properties/Properties_C10.v"]
     ocaml = dict(name="log_c10", extracted="log_model.ml", glue=("glue_base.ml", "glue_z.ml", "log_lib.ml"), driver="log_c10_driver.ml")
     corpus = "C10.txt"
-    level_text = ("Twelve theorems proved in Coq for ALL minima, thresholds, filter expressions, severities and item lists over the "
+    level_text = ("Thirteen theorems proved in Coq for ALL minima, thresholds, filter expressions, severities and item lists over the "
                   "model of stream.hpp: the statement's stream type is smart_stream iff severity >= compile-time minimum, a "
                   "null_stream discards every insertion; a statement that is not enabled (either reason, either form) produces no "
                   "Call, no Format and no Sink event; an enabled one calls exactly the streamed callables, each as often as it was "
                   "streamed, in streaming order, each at the insertion that streams it (named form: the insertion statement emits "
                   "the call iff the stream is live, and live <-> enabled is invariant; one-expression form: after every prefix of "
-                  "the chain exactly the prefix's calls have happened and the buffer holds exactly the prefix's text). "
+                  "the chain exactly the prefix's calls have happened and the buffer holds exactly the prefix's text); the C++ shape "
+                  "of the callable is carried by the model and provably ignored (a callable is a callable). "
                   "Tie: the generated C++ program is compiled at each of the six minima with static_asserts pinning "
                   "decltype(L::trace()/…/fatal()) to null_stream/smart_stream for all 36 (severity, minimum) pairs x 10 loggers, "
                   "the same fact is compared at run time with the extracted model, the gate's >= and the enum order are re-read "
@@ -21,13 +22,18 @@ class C10(LogCheck):
                   "complete single-statement space (thorough) / a deterministic grid (quick) plus random programs in which named "
                   "streams interleave with other statements")
     level_note = ("trusted: Coq kernel, extraction, OCaml compiler, gen/tr_severity.py, the differential harness; assumed and only "
-                  "exercised: overload resolution (is_callable<T, std::string()> selects the lazy overloads for function objects and "
-                  "lambdas; other callable kinds are not exercised), by-value copy of the callable, lifetime of temporaries; "
+                  "exercised: overload resolution for each callable shape the generated program streams in both forms at every "
+                  "cell of the (minimum, logger, thresholds, severity) grid — function object, lambda, plain function/function "
+                  "pointer, std::function<std::string()> as lvalue and as temporary, std::function<const char*()>, const function "
+                  "object, lambda stored in a variable (a std::function returning a number is not a callable for the library: "
+                  "is_callable is false and the statement does not compile; pinned by a static_assert); callable types outside this "
+                  "list are not exercised; by-value copy of the callable, lifetime of temporaries; "
                   "'costs nothing' is checked as 'no observable evaluation and a stream type without state', not as generated code "
                   "size or time; correspondence is testing, exhaustive only over the finite single-statement space (thorough)")
     rule = ("same case space as C05 (programs over threshold changes, one-expression statements, named streams, stream-type queries; "
-            "6 binaries, one per compile-time minimum). Every case streams callables identified by id; callables are function "
-            "objects in the one-expression form and lambdas in the named form. Non-trivial: a callable was streamed or something "
+            "6 binaries, one per compile-time minimum). Callable items carry an id and one of 8 C++ shapes (o l p f F c k v, see "
+            "props/log_common.py); every shape occurs alone and after a string item at every (minimum, logger, relevant threshold "
+            "setting, severity, form) cell, and in every ordered pair of shapes for two loggers. Non-trivial: a callable was streamed or something "
             "was delivered. distinct = distinct case line")
     modelled_note = ("modelled, not verified: overload resolution between the lazy (callable) and the eager operator<<, copy of the "
                      "callable into the operator, lifetime of temporaries and copy elision; the stream TYPE is a compiler fact "
